@@ -136,19 +136,19 @@ Qed.
 Lemma receive_headers_event_shape cfg hs es s s' evs : receive_headers cfg hs es s = (s', Ok evs) -> ended_ok evs.
 Proof.
   intros H. unfold receive_headers in H.
-  destruct (is_informational_response (plain hs)) eqn:Hi; destruct es; cbn [andb] in H; try (unfold lift_res, perr in H; discriminate).
-  - apply bind_ok in H as (s1 & e1 & Ef & H). apply bind_ok in H as (s2 & e2 & E2 & H).
-    unfold ret in E2. injection E2 as <- <-.
+  destruct (is_informational_response (plain hs)) eqn:Hi; destruct es; cbn [andb] in H;
+    apply bind_ok in H as (s1 & e1 & Ef & H); apply bind_ok in H as (sg & ug & Eg & H);
+    try (unfold lift_res, perr in Eg; discriminate); unfold ret in Eg; injection Eg as <- _;
+    apply bind_ok in H as (s2 & e2 & E2 & H).
+  - unfold ret in E2. injection E2 as <- <-.
     destruct e1 as [|e0 e1]; [unfold crash in H; discriminate|].
     refine (receive_headers_tail _ cfg hs false e0 e1 _ _ _ H _). intros; discriminate.
-  - apply bind_ok in H as (s1 & e1 & Ef & H). apply bind_ok in H as (s2 & e2 & E2 & H).
-    destruct e1 as [|e0 e1]; [unfold crash in H; discriminate|].
+  - destruct e1 as [|e0 e1]; [unfold crash in H; discriminate|].
     destruct e2 as [|x xs]; [unfold crash in H; discriminate|].
     refine (receive_headers_tail _ cfg hs true e0 e1 _ _ _ H _). intros _ ->.
     unfold fsm in Ef. destruct (process_input (s_id s) (s_sm s) SI_RECV_HEADERS) as [m r] eqn:Ep.
     injection Ef as _ ->. exact (recv_headers_no_info _ _ _ _ Ep).
-  - apply bind_ok in H as (s1 & e1 & Ef & H). apply bind_ok in H as (s2 & e2 & E2 & H).
-    unfold ret in E2. injection E2 as <- <-.
+  - unfold ret in E2. injection E2 as <- <-.
     destruct e1 as [|e0 e1]; [unfold crash in H; discriminate|].
     refine (receive_headers_tail _ cfg hs false e0 e1 _ _ _ H _). intros; discriminate.
 Qed.
